@@ -1,4 +1,218 @@
-import PieModel.Build.Pie
+/-
+Property C02 (write-free fragment): "nothing changed ⇒ nothing executes".
+
+* `C02_consistent_memo`: within a session, making a task consistent a second time returns its
+  output at once: no event, no change of the state.
+* `C02_idempotent`: after a `Session::require` returned `o` for `root`, a NEW session on the same
+  `Pie` with unchanged resources, requiring `root` again, for ANY fuel: does not touch the store,
+  emits no `executeStart` event, and returns `.ok o` — or runs out of fuel.
+* `C02_idempotent_fuel`: ... and for all sufficiently large fuels it does return `.ok o`.
+
+  The statement "with the SAME fuel the second session returns `.ok o`" is FALSE (validation of
+  a task needs one level of fuel more than its execution): see the counterexample at the end.
+
+Hypotheses as for C01, plus `Reflexive sem` (checkers accept their own stamps).  The store-level
+fact behind it is `Settled` (`PieModel/Build/Sound/NoExec.lean`): every task made consistent in
+the first session has an output, and each of its dependencies is accepted by its checker against
+the current resources / the stored output of a task of the same set ("recorded stamps are
+current"); it follows from the session invariant `SInv` of C01.
+-/
+import PieModel.Props.C01
+import PieModel.Build.Sound.NoExecFuel
+
 namespace PieModel
-theorem C02_placeholder : True := trivial
+
+variable {sem : Sem} {body : Nat → Prog}
+
+/-! ### within a session -/
+
+/-- `make_task_consistent` on a task whose node is already consistent in this session returns
+the stored output, appends no event and changes nothing. -/
+theorem C02_consistent_memo (f : Nat) (s : Sess) (t m : Nat) (o : Int)
+    (hn : aget s.store.taskNode t = some m) (hm : m ∈ s.consistent)
+    (ho : s.store.taskOutput m = some o) : tdMake sem body (f + 1) s t = (s, .ok o) := by
+  unfold tdMake
+  simp only [Store.getOrCreateTaskNode_of_some hn, hm, if_true, ho]
+
+/-- Under the session invariant the output exists and is the from-scratch output. -/
+theorem C02_consistent_memo_sound (f : Nat) (s : Sess) (t m : Nat) (h : SInv sem body s.fs s)
+    (hn : aget s.store.taskNode t = some m) (hm : m ∈ s.consistent) :
+    ∃ o, tdMake sem body (f + 1) s t = (s, .ok o) ∧ Eval sem body s.fs t o := by
+  obtain ⟨t', v, ht, hv, he⟩ := h.sound m hm
+  have := (h.wf.store.task_iff t m).mp hn
+  rw [ht] at this; cases this
+  exact ⟨v, C02_consistent_memo f s t m v hn hm hv, he⟩
+
+/-! ### across sessions -/
+
+/-- No `executeStart` event in the trace. -/
+def NoExecEvents (tr : List Ev) : Prop := ∀ t, Ev.executeStart t ∉ tr
+
+theorem noExecEvents_of_isExec {tr : List Ev} (h : ∀ e ∈ tr, e.isExec = false) : NoExecEvents tr :=
+  fun t ht => by simpa [Ev.isExec] using h _ ht
+
+section
+variable (hst : StampTotal sem) (hwfb : WriteFreeBody body)
+  (hresp : ∀ t, Respects sem (body t)) (hone : ∀ t, OneChecker (body t)) (hrefl : Reflexive sem)
+include hst hwfb hresp hone hrefl
+
+/-- After a returning `require`, the tasks that are consistent in the session form a settled
+set: all recorded stamps are current. -/
+theorem C02_settled (fuel : Nat) (s s' : Sess) (root : Nat) (o : Int) (h : SInv sem body s.fs s)
+    (hr : sessionRequire sem body fuel s root = (s', .ok o)) :
+    Settled sem s'.fs s'.store s'.consistent ∧
+    ∃ m, s'.store.taskOf m = some root ∧ m ∈ s'.consistent ∧ s'.store.taskOutput m = some o := by
+  obtain ⟨st, _, hfs, hc, ho, ht⟩ := (sessionRequire_outcome hst hwfb hresp hone fuel s root h).ok _ _ hr
+  have hinv : SInv sem body s'.fs s' := by rw [hfs]; exact st.inv
+  exact ⟨hinv.settled hrefl, _, ht, hc, ho⟩
+
+/-- **C02 (nothing changed ⇒ nothing executes).** -/
+theorem C02_idempotent (fuel : Nat) (s s' : Sess) (root : Nat) (o : Int)
+    (h : SInv sem body s.fs s) (hr : sessionRequire sem body fuel s root = (s', .ok o))
+    (fuel₂ : Nat) :
+    ((sessionRequire sem body fuel₂ s'.toPie.newSession root).2 = .ok o ∨
+      (sessionRequire sem body fuel₂ s'.toPie.newSession root).2 = .abort .outOfFuel) ∧
+    (sessionRequire sem body fuel₂ s'.toPie.newSession root).1.store = s'.store ∧
+    (sessionRequire sem body fuel₂ s'.toPie.newSession root).1.fs = s'.fs ∧
+    NoExecEvents (sessionRequire sem body fuel₂ s'.toPie.newSession root).1.trace := by
+  obtain ⟨hS, m, ht, hm, ho⟩ := C02_settled hst hwfb hresp hone hrefl fuel s s' root o h hr
+  have hw : s'.store.WF :=
+    ((sessionRequire_outcome hst hwfb hresp hone fuel s root h).ok _ _ hr).1.inv.wf.store
+  generalize hR : sessionRequire sem body fuel₂ s'.toPie.newSession root = R
+  obtain ⟨sR, rR⟩ := R
+  obtain ⟨h1, h2, ⟨evs, h3, h4⟩, h5⟩ := sessionRequire_quiet (body := body) hw hS fuel₂
+    s'.toPie.newSession rfl rfl root m o ht hm ho _ _ hR
+  refine ⟨h5, h1, h2, noExecEvents_of_isExec ?_⟩
+  show ∀ e ∈ sR.trace, _
+  rw [h3]
+  intro e he
+  exact h4 e (by simpa [PieSt.newSession] using he)
+
+/-- ... and with enough fuel the second session does return the same output. -/
+theorem C02_idempotent_fuel (fuel : Nat) (s s' : Sess) (root : Nat) (o : Int)
+    (h : SInv sem body s.fs s) (hr : sessionRequire sem body fuel s root = (s', .ok o)) :
+    ∃ N, ∀ fuel₂, N ≤ fuel₂ →
+      (sessionRequire sem body fuel₂ s'.toPie.newSession root).2 = .ok o := by
+  obtain ⟨hS, m, ht, hm, ho⟩ := C02_settled hst hwfb hresp hone hrefl fuel s s' root o h hr
+  have hw : s'.store.WF :=
+    ((sessionRequire_outcome hst hwfb hresp hone fuel s root h).ok _ _ hr).1.inv.wf.store
+  obtain ⟨N, hN⟩ := sessionRequire_fuel (body := body) hw hS root m o ht hm ho
+  refine ⟨N, fun f hf => ?_⟩
+  generalize hR : sessionRequire sem body f s'.toPie.newSession root = R
+  obtain ⟨sR, rR⟩ := R
+  exact hN f hf s'.toPie.newSession rfl rfl _ _ hR
+
+/-- The same for every task that was made consistent in the first session (not only the
+root): a new session validates it without executing anything. -/
+theorem C02_idempotent_any (fuel : Nat) (s s' : Sess) (root : Nat) (o : Int)
+    (h : SInv sem body s.fs s) (hr : sessionRequire sem body fuel s root = (s', .ok o))
+    (t m : Nat) (v : Int) (ht : s'.store.taskOf m = some t) (hm : m ∈ s'.consistent)
+    (hv : s'.store.taskOutput m = some v) (fuel₂ : Nat) :
+    ((sessionRequire sem body fuel₂ s'.toPie.newSession t).2 = .ok v ∨
+      (sessionRequire sem body fuel₂ s'.toPie.newSession t).2 = .abort .outOfFuel) ∧
+    (sessionRequire sem body fuel₂ s'.toPie.newSession t).1.store = s'.store ∧
+    NoExecEvents (sessionRequire sem body fuel₂ s'.toPie.newSession t).1.trace := by
+  obtain ⟨hS, _⟩ := C02_settled hst hwfb hresp hone hrefl fuel s s' root o h hr
+  have hw : s'.store.WF :=
+    ((sessionRequire_outcome hst hwfb hresp hone fuel s root h).ok _ _ hr).1.inv.wf.store
+  generalize hR : sessionRequire sem body fuel₂ s'.toPie.newSession t = R
+  obtain ⟨sR, rR⟩ := R
+  obtain ⟨h1, _, ⟨evs, h3, h4⟩, h5⟩ := sessionRequire_quiet (body := body) hw hS fuel₂
+    s'.toPie.newSession rfl rfl t m v ht hm hv _ _ hR
+  refine ⟨h5, h1, noExecEvents_of_isExec ?_⟩
+  show ∀ e ∈ sR.trace, _
+  rw [h3]
+  intro e he
+  exact h4 e (by simpa [PieSt.newSession] using he)
+
+end
+
+/-! ### non-vacuity
+
+The program of C01 under a checker semantics that is total and reflexive (`stdSem`'s resource
+checkers 10–29 fail on purpose when *checking*, 30– when *stamping*). -/
+
+def reflSem : Sem :=
+  { stdSem with rstamp := fun c v => .ok (stdRStampCore c v),
+                rcheck := fun c v s => .ok (stdRStampCore c v == s) }
+
+theorem reflSem_stampTotal : StampTotal reflSem := fun _ _ => ⟨_, rfl⟩
+
+theorem reflSem_reflexive : Reflexive reflSem := by
+  refine ⟨fun c o => ?_, fun c v s h => ?_⟩
+  · simp [reflSem, stdSem, stdOCheck]
+  · simp only [reflSem, Except.ok.injEq] at h
+    subst h
+    simp [reflSem]
+
+theorem reflSem_ocheck0 {o o' : Int} (h : reflSem.ocheck 0 o' (reflSem.ostamp 0 o) = true) :
+    o' = o := by
+  simpa [reflSem, stdSem, stdOCheck, stdOStamp] using h
+
+theorem reflSem_rcheck0 {v v' : Option Int} {s : Stamp} (h1 : reflSem.rstamp 0 v = .ok s)
+    (h2 : reflSem.rcheck 0 v' s = .ok true) : v' = v := by
+  simp only [reflSem, stdRStampCore, Except.ok.injEq] at h1
+  subst h1
+  simpa [reflSem, stdRStampCore] using h2
+
+theorem c01Body_respects_refl : ∀ t, Respects reflSem (c01Body t) := by
+  intro t
+  match t with
+  | 0 =>
+    refine ⟨fun v v' s h1 h2 => by rw [reflSem_rcheck0 h1 h2], fun x => ?_⟩
+    dsimp only
+    split
+    · exact ⟨fun o o' h => by rw [reflSem_ocheck0 h], fun o => ⟨fun _ _ _ => rfl, fun _ => trivial⟩⟩
+    · exact ⟨fun o o' h => by rw [reflSem_ocheck0 h], fun o => trivial⟩
+  | 1 =>
+    refine ⟨fun v v' s h1 h2 => by rw [reflSem_rcheck0 h1 h2], fun x => ?_⟩
+    dsimp only
+    split <;> trivial
+  | _ + 2 => trivial
+
+/-- The `Pie` with resources `0 ↦ 1, 1 ↦ 5` and an empty store. -/
+def c02Pie : PieSt := { fs := [(0, 1), (1, 5)] }
+
+/-- Trace statistics of two consecutive sessions requiring task 0 with fuel `f₁`, `f₂`:
+(result 1, number of `executeStart`s 1, result 2, number of `executeStart`s 2). -/
+def c02Run (f₁ f₂ : Nat) : Option Int × Nat × Option (Option Int) × Nat :=
+  let r1 := sessionRequire reflSem c01Body f₁ c02Pie.newSession 0
+  let r2 := sessionRequire reflSem c01Body f₂ r1.1.toPie.newSession 0
+  (match r1.2 with | .ok o => some o | .abort _ => none, (r1.1.trace.filter Ev.isExec).length,
+   match r2.2 with | .ok o => some (some o) | .abort .outOfFuel => some none | .abort _ => none,
+   (r2.1.trace.filter Ev.isExec).length)
+
+/-- First session: three executions, output 15.  Second session: no execution, output 15. -/
+example : c02Run 20 20 = (some 15, 3, some (some 15), 0) := by with_unfolding_all decide
+
+/-- **Counterexample to "the same fuel suffices".**  With fuel 8 the first session returns 15
+(executing three tasks); the second session with the same fuel 8 executes nothing but runs out
+of fuel: *validating* a task costs one level more than *executing* it
+(`tdMake → tdCheck → tdCheckDeps` vs. `tdMake → tdRun`).  With fuel 9 it returns 15. -/
+example : c02Run 8 8 = (some 15, 3, some none, 0) ∧ c02Run 8 9 = (some 15, 3, some (some 15), 0) := by
+  constructor <;> with_unfolding_all decide
+
+/-- `.ok`-results as options (decidable equality). -/
+def Res.toOption {α : Type} : Res α → Option α
+  | .ok a => some a
+  | .abort _ => none
+
+theorem Res.eq_ok_of_toOption {α : Type} {r : Res α} {a : α} (h : r.toOption = some a) :
+    r = .ok a := by
+  cases r with
+  | ok b => simp only [Res.toOption, Option.some.injEq] at h; rw [h]
+  | abort k => cases h
+
+/-- The theorem applied to the run. -/
+example (f₂ : Nat) :
+    NoExecEvents (sessionRequire reflSem c01Body f₂
+      (sessionRequire reflSem c01Body 8 c02Pie.newSession 0).1.toPie.newSession 0).1.trace :=
+  (C02_idempotent reflSem_stampTotal c01Body_writeFree c01Body_respects_refl c01Body_oneChecker
+    reflSem_reflexive 8 c02Pie.newSession _ 0 15
+    (SInv.newSession (p := c02Pie) Store.WF.empty Faithful.empty)
+    (by
+      have h2 : (sessionRequire reflSem c01Body 8 c02Pie.newSession 0).2 = .ok 15 :=
+        Res.eq_ok_of_toOption (by with_unfolding_all decide)
+      rw [← h2]) f₂).2.2.2
+
 end PieModel
